@@ -57,9 +57,10 @@ func RandomHistories(w *WorldJSON, seed int64, n, depth int, routers []string, f
 			}
 			for s := 0; s < depth; s++ {
 				op, args := g.next()
-				if fm := faultMethods[op]; len(fm) > 0 && (rng.Intn(10) == 0 || (focus == "faults" && rng.Intn(3) == 0)) {
+				if fm := faultMethods[op]; len(fm) > 0 && (rng.Intn(10) == 0 || ((focus == "faults" || focus == "authorize") && rng.Intn(3) == 0)) {
 					// C10: a storage call fails while this request is served
 					args["fault"] = fm[rng.Intn(len(fm))]
+					args["faultKind"] = []string{"error", "oidc", "oidc"}[rng.Intn(3)]
 				}
 				emit(op, args)
 			}
